@@ -79,7 +79,11 @@ Inductive c17case :=
 | CTail (allowed : option (list string)) (zip : option string) (dec : res bspec)
         (events : list zrec) (expect : res bspec)
 | CContract (m : N) (full : option (bspec * bool)) (ans : res (bspec * bool * bool))
-| CSpecSum (s : bspec) (len : N) (adler : N).
+| CSpecSum (s : bspec) (len : N) (adler : N)
+(* one perform_encrypt on a message object: zlib.compress answer [zc] (if called),
+   the plaintext argument recorded at enc.encrypt, obj.plaintext afterwards *)
+| CEncTail (allowed : option (list string)) (zip : option string) (p : bspec)
+           (zc : bspec) (compressed : bool) (enc_arg : bspec) (after : bspec).
 
 Definition eval_ans (a : res (bspec * bool * bool)) : res zans :=
   match a with Ok (x, t, e) => Ok (bs_eval x, t, e) | Err e => Err e end.
@@ -132,6 +136,16 @@ Definition c17_check (c : c17case) : bool :=
                 (eval_ans ans)
   | CSpecSum s len adler =>
       let b := bs_eval s in (blen b =? len) && (adler32 b =? adler)
+  | CEncTail allowed zip p zc compressed enc_arg after =>
+      let pb := bs_eval p in let zb := bs_eval zc in
+      let obj := {| em_plaintext := pb; em_zip := zip; em_ciphertext := []; em_tag := [] |} in
+      let '(r, t) := encrypt_tailL (fun q => if beqb q pb then zb else [])
+                                   (fun m _ _ _ => Ok (m, [])) allowed obj [] [] [] in
+      match r with
+      | Ok o => beqb (em_plaintext o) (bs_eval after) && beqb (em_ciphertext o) (bs_eval enc_arg) &&
+                Bool.eqb compressed (match t with EvCompress _ :: _ => true | _ => false end)
+      | Err _ => false
+      end
   end.
 
 (* model output in summary form: (length, Adler-32) of the result, trace length *)
@@ -150,4 +164,10 @@ Definition c17_show (c : c17case) : res (N * N) * nat :=
       (sum_res r, length t)
   | CContract m full ans => (sum_res (match eval_ans ans with Ok (x, _, _) => Ok x | Err e => Err e end), 0%nat)
   | CSpecSum s _ _ => (sum_res (Ok (bs_eval s)), 0%nat)
+  | CEncTail allowed zip p zc _ _ _ =>
+      let pb := bs_eval p in let zb := bs_eval zc in
+      let obj := {| em_plaintext := pb; em_zip := zip; em_ciphertext := []; em_tag := [] |} in
+      let '(r, t) := encrypt_tailL (fun q => if beqb q pb then zb else [])
+                                   (fun m _ _ _ => Ok (m, [])) allowed obj [] [] [] in
+      (sum_res (match r with Ok o => Ok (em_ciphertext o) | Err e => Err e end), length t)
   end.
